@@ -1,0 +1,16 @@
+//go:build verif
+
+package cesium
+
+import "context"
+
+// VerifGarbageCollect runs the database's (otherwise ticker-driven) garbage collection
+// pass synchronously. Exported for verification harnesses built with the verif tag.
+func (db *DB) VerifGarbageCollect(ctx context.Context) error {
+	return db.garbageCollect(ctx, db.gcCfg.MaxGoroutine)
+}
+
+// WithVerifStreamingConfig sets the (otherwise unexported) streaming configuration.
+func WithVerifStreamingConfig(cfg DBStreamingConfig) Option {
+	return func(o *options) { o.streamingConfig = cfg }
+}
